@@ -605,9 +605,7 @@ func lspFormatText(text string, insertSpaces bool, tabSize int) (formatted strin
 		if len(msg.Error) > 0 && string(msg.Error) != "null" {
 			return "", false
 		}
-		var edits []struct {
-			NewText string `json:"newText"`
-		}
+		var edits []lspTextEdit
 		if len(msg.Result) == 0 || string(msg.Result) == "null" {
 			return text, true
 		}
@@ -617,6 +615,58 @@ func lspFormatText(text string, insertSpaces bool, tabSize int) (formatted strin
 		if len(edits) == 0 {
 			return text, true
 		}
-		return edits[0].NewText, true
+		// what the client has after the action: the edits applied to its text under the protocol's position rules
+		// (UTF-16 code units, positions past a line's end or past the last line clamped), last edit first
+		out := text
+		for i := len(edits) - 1; i >= 0; i-- {
+			out = applyLspEdit(out, edits[i])
+		}
+		return out, true
 	}
+}
+
+type lspTextEdit struct {
+	Range struct {
+		Start, End struct{ Line, Character int }
+	} `json:"range"`
+	NewText string `json:"newText"`
+}
+
+// lspOffset: byte offset of (line, character) in text; character counts UTF-16 code units
+func lspOffset(text string, line, character int) int {
+	if line < 0 {
+		return 0
+	}
+	off := 0
+	for l := 0; l < line; l++ {
+		i := strings.IndexByte(text[off:], '\n')
+		if i < 0 {
+			return len(text)
+		}
+		off += i + 1
+	}
+	end := len(text)
+	if i := strings.IndexByte(text[off:], '\n'); i >= 0 {
+		end = off + i
+	}
+	units := 0
+	for off < end && units < character {
+		r, sz := utf8.DecodeRuneInString(text[off:])
+		if r >= 0x10000 {
+			units += 2
+		} else {
+			units++
+		}
+		off += sz
+	}
+	return off
+}
+
+func applyLspEdit(text string, e lspTextEdit) string {
+	a := lspOffset(text, e.Range.Start.Line, e.Range.Start.Character)
+	b := lspOffset(text, e.Range.End.Line, e.Range.End.Character)
+	if b < a {
+		a, b = b, a
+	}
+	return text[:a] + e.NewText + text[b:]
 }
